@@ -59,6 +59,7 @@ def h_call_frame(cross):
         caller_locals = Rec(name="caller_locals")
         stack0 = [Rec(name="outer_scope")]
         inside = []
+        scopes_seen = []
         fdef = ast.parse("def f():\n    pass\n").body[0]
         fdef.body = mk_body(2)
         prev_func = Rec(name="prev_func")
@@ -72,6 +73,7 @@ def h_call_frame(cross):
             def th():
                 f = ctx._fields
                 inside.append((f["global_sym_table"], f["global_ctx"], f["curr_func"], f["sym_table"]))
+                scopes_seen.append(list(f["sym_table_stack"]))
                 kind, v = it.ExS(node)
                 if kind == "return":
                     return Rec(cls=V["EvalReturn"], fields={"value": v}, name="EvalReturn")
@@ -104,7 +106,20 @@ def h_call_frame(cross):
         want_table = T2 if cross else T1
         ob("body.runs-against-the-defining-context", len(inside) >= 1 and all(
             t is want_table and g is G2 and cf is func and st is not caller_locals for t, g, cf, st in inside))
+        if cross:
+            # isolation: the scopes ENCLOSING the body of a function that belongs to another global context are that
+            # context's; neither the caller's local scope nor any scope the caller was nested in is among them (an inner def
+            # executed there would bind its free names to the caller's variables)
+            o = eng.oblige(f"{U}/body.enclosing-scopes-of-a-foreign-function-hold-nothing-of-the-caller", len(scopes_seen) >= 1 and all(
+                all(sc is not caller_locals and all(sc is not x for x in stack0) for sc in seen) for seen in scopes_seen))
+            if o.status == "refuted":
+                o.witness = {"signature": "callers-scopes-visible-in-a-foreign-function", "what": "cross-context-scopes"}
     return h
+
+
+def replay_call_frame(wj):
+    from replay.native import run_native
+    return run_native("c11_cross_context_closure", wj, timeout=120)
 
 
 def h_classdef_frame(eng):
@@ -324,7 +339,7 @@ def replay_triginfo(wj):
 
 def harnesses():
     hs = [Harness("EvalFunc.call.frame[same-context]", h_call_frame(False), units=[(E_PY, "EvalFunc.call")]),
-          Harness("EvalFunc.call.frame[cross-context]", h_call_frame(True), units=[(E_PY, "EvalFunc.call")]),
+          Harness("EvalFunc.call.frame[cross-context]", h_call_frame(True), units=[(E_PY, "EvalFunc.call")], replay=replay_call_frame),
           Harness("ast_classdef.frame", h_classdef_frame, units=[(E_PY, "AstEval.ast_classdef")], replay=replay_classdef)]
     hs.append(Harness("TrigInfo.__init__.contexts", h_triginfo_contexts, units=[(f"{PKG}/trigger.py", "TrigInfo.__init__")], replay=replay_triginfo))
     for c in IMPORT_CASES:
